@@ -113,6 +113,7 @@ func Choice(label string, n int) int {
 	return int(pop(label, 8))
 }
 func Split(label string, x uint64, max int) uint64 { return x }
+func Concretize(label string, x uint64, n int) uint64 { return x }
 
 func Bytes(label string, n int) []byte {
 	b := make([]byte, n)
